@@ -3,6 +3,7 @@ package props
 import (
 	"context"
 	"encoding/json"
+	"errors"
 	"fmt"
 	"io/ioutil"
 	"math"
@@ -12,6 +13,7 @@ import (
 	"runtime/debug"
 	"strings"
 	"sync"
+	"sync/atomic"
 	"time"
 
 	"github.com/golang/protobuf/proto"
@@ -150,9 +152,61 @@ func runC20(c *harness.Case) {
 		c.Inconclusive(err.Error())
 		return
 	}
-	defer eng.Close()
+	defer func() {
+		// with engine faults a scan may still be in its retry backoff when the case ends (the scanner retries a failed
+		// partition after 1 s and 3 s): the engine stays open, as it would in a running node
+		if (c.Index/4)%2 == 0 {
+			eng.Close()
+		}
+	}()
 	rm := harness.NewRecMetrics(true)
-	kv := harness.WithMetrics(eng.KV, rm)
+	// in every other group of four cases the engine misbehaves while a hostile request is being served (and only then):
+	// a quarter of the write batches fail - definitely, or with an unknown outcome, applied or not - and one in eight
+	// point reads and iterator steps answers an error. The request may fail; the node must not panic or wedge.
+	faulty := (c.Index/4)%2 == 1
+	fw := harness.NewWrap(eng.KV)
+	var faultsArmed int32
+	var faultSeq, faultsInjected uint64
+	fseed := uint64(r.Int63())
+	fdraw := func(mod uint64) uint64 {
+		x := fseed ^ atomic.AddUint64(&faultSeq, 1)*0x9e3779b97f4a7c15
+		x ^= x >> 31
+		return x % mod
+	}
+	if faulty {
+		fw.Decide = func(b *harness.BatchInfo) harness.Decision {
+			if atomic.LoadInt32(&faultsArmed) == 0 {
+				return harness.Pass
+			}
+			switch fdraw(16) {
+			case 0, 1:
+				atomic.AddUint64(&faultsInjected, 1)
+				return harness.FailDefinite
+			case 2:
+				atomic.AddUint64(&faultsInjected, 1)
+				return harness.UncertainApplied
+			case 3:
+				atomic.AddUint64(&faultsInjected, 1)
+				return harness.UncertainNotApplied
+			}
+			return harness.Pass
+		}
+		fw.GetFault = func(key []byte) error {
+			if atomic.LoadInt32(&faultsArmed) == 1 && fdraw(8) == 0 {
+				atomic.AddUint64(&faultsInjected, 1)
+				return errors.New("injected: region is unavailable")
+			}
+			return nil
+		}
+		fw.IterFault = func(start, end []byte, k int) error {
+			if atomic.LoadInt32(&faultsArmed) == 1 && fdraw(8) == 0 {
+				atomic.AddUint64(&faultsInjected, 1)
+				return errors.New("injected iterator error")
+			}
+			return nil
+		}
+	}
+	kv := harness.WithMetrics(fw, rm)
 	n := harness.NewNode(harness.NodeOpts{KV: kv, Metrics: rm, TrackNotify: true, Config: backend.Config{EnableEtcdCompatibility: c.Index%2 == 0, WatchCacheSize: 2048}})
 	defer n.Retire()
 	peers := harness.NewPeers(true)
@@ -205,12 +259,15 @@ func runC20(c *harness.Case) {
 					done <- fmt.Sprintf("panic: %v\n%s", p, debug.Stack())
 				}
 			}()
+			atomic.StoreInt32(&faultsArmed, 1)
 			cerr = f()
+			atomic.StoreInt32(&faultsArmed, 0)
 			done <- ""
 		}()
 		select {
 		case p := <-done:
 			if p != "" {
+				atomic.StoreInt32(&faultsArmed, 0)
 				fn := firstKubebrainFrame(p)
 				c.Violatef("C20 handler-panicked request="+name+" at="+fn, wit(desc), "request %s made the handler panic: %s", trunc(desc, 400), trunc(p, 1500))
 				log = append(log, desc+" -> PANIC")
@@ -531,6 +588,9 @@ func runC20(c *harness.Case) {
 		c.AddSet("metric_names_reached", m)
 	}
 	c.AddSet("engines", kind)
+	if faulty {
+		c.Stat("engine_faults_injected_while_a_hostile_request_was_served", int64(atomic.LoadUint64(&faultsInjected)))
+	}
 	c.Stat("metric_emissions", rm.Emitted)
 	b, _ := json.Marshal(log)
 	c.Fingerprint(len(types) >= 10 && nonUTF8Watch > 0 && negRev > 0 && unsupported > 0, kind, len(b), c.Index)
